@@ -149,6 +149,7 @@ impl CharTokenizer {
 
 //@unit src/tokenization.rs fn process_token_input impl=^impl\sVocabTokenize<char>for\sCharTokenizer$
 //@rule R19
+    #[verifier::loop_isolation(false)]
     fn process_token_input<'a>(
         &'a self,
         inputs: Vec<TokenInput<'a>>,
@@ -299,6 +300,7 @@ impl CharTokenizer {
 //@rule R21
 //@rule closure_annot0(u32)
 //@rule R4
+    #[verifier::loop_isolation(false)]
     fn tokenize(&self, s: &str, ignore_special_tokens: bool) -> (res: VtResult<Tokenization>)
         requires self.wf_unk(), obeys_key_model::<String>(), obeys_key_model::<char>(),
         ensures
